@@ -2,6 +2,8 @@
 """writes /tmp/seedprompts/rf<ID>.txt : the brief for an independent sub-agent that produces
 behaviour-PRESERVING refactors of the code a property is anchored in (false-alarm test of the checks)."""
 import json, sys, os
+PREFIX = os.environ.get('RF_PREFIX', 'rf')
+EXTRA = os.environ.get('RF_EXTRA', '')
 props = {json.loads(l)['id']: json.loads(l) for l in open('/verif/properties.jsonl')}
 T = '''You are helping to test a verification effort for the open-source Python project betcode-org/flumine (an event-driven sports-betting trading framework). You work ONLY inside the git worktree {wt} (a checkout of the project). Do not read or write anything under /verif or /repo. Python to use: /venv/bin/python. IMPORTANT: `flumine` is also installed from another directory; run pytest as `cd {wt} && /venv/bin/python -m pytest ...` (this imports the worktree copy).
 
@@ -21,7 +23,7 @@ YOUR TASK: produce THREE independent REFACTORS (A, B, C) of the code that implem
   - reorder statements that are provably independent; hoist an invariant computation out of a loop (only if provably invariant and side-effect free);
   - replace `try/except KeyError` by `.get()`/`in` (or the reverse) where exactly equivalent; `x = x + y` vs `x += y` on numbers; `len(x) == 0` vs `not x` for lists; tuple unpacking; f-strings;
   - move a constant or a pure helper to module level; add type annotations to locals; rename local variables / a parameter of a private helper consistently.
-RULES: keep the names and signatures of all existing classes, methods, functions, properties and attributes (the tests and users call them); new helpers may be named freely. Do not change any threshold, constant, comparison outcome, default, iteration order, or the order of side effects. Do not "fix" anything you think is a bug. If you are not sure a rewrite is exactly equivalent, choose another one.
+{extra}RULES: keep the names and signatures of all existing classes, methods, functions, properties and attributes (the tests and users call them); new helpers may be named freely. Do not change any threshold, constant, comparison outcome, default, iteration order, or the order of side effects. Do not "fix" anything you think is a bug. If you are not sure a rewrite is exactly equivalent, choose another one.
 For EACH refactor: the package must import and the existing test-suite must pass exactly as before: run `cd {wt} && /venv/bin/python -m pytest -q -p no:cacheprovider --timeout=900 2>&1 | tail -5` — the baseline is "5 failed, 976 passed" (the 5 failures are pre-existing network/json tests: test_event_processing, test_simulation_multi_clients, test_simulation_pro, test_get_file_event_id, test_get_file_event_id_tuple); with your refactor it must be the same 976 passed and the same 5 failed.
 
 DELIVERABLES (write them into {wt}/seeds/ , create that directory):
@@ -34,9 +36,9 @@ In your final message, summarise the three refactors in two lines each. Do not c
 os.makedirs('/tmp/seedprompts', exist_ok=True)
 for pid in sys.argv[1:]:
     p = props[pid]
-    wt = '/tmp/wt/rf' + pid.lower()
-    open('/tmp/seedprompts/rf%s.txt' % pid, 'w').write(T.format(
-        wt=wt, id=pid, title=p['title'], statement=p['statement'], qtext=p['quantifier']['text'],
+    wt = '/tmp/wt/' + PREFIX + pid.lower()
+    open('/tmp/seedprompts/%s%s.txt' % (PREFIX, pid), 'w').write(T.format(
+        extra=EXTRA, wt=wt, id=pid, title=p['title'], statement=p['statement'], qtext=p['quantifier']['text'],
         files=', '.join(p['anchors']['files']),
         mech='; '.join('%s (%s)' % (m['name'], m['where']) for m in p['anchors']['mechanism'])))
     print('wrote', pid)
